@@ -33,6 +33,9 @@ def run(R):
               "by qhull): a target that needs (1 + e) times the upper bound is outside in every unit. "
               "Every pair is also fitted with model='poisson' (default solver; the Poisson objective is multiplied by c under the unit "
               "change, so predictions scale by c and unique intensities by 1/s), judged like the default gaussian fit. "
+              "Every pair is further fitted with the weighting option W= (default solver): W='inverse' (relative errors; half of the systems) "
+              "or explicit dimensionless weights per channel / per target and channel (the same numbers for both twins; any legitimate "
+              "representation), judged like the default gaussian fit, also on the third twin in very large capture units. "
               "Every fourth system (large capture units) has a twin whose capture unit is 32..128 times smaller (twin captures up to 1e4: "
               "beyond C04's 1..100 band, inside C15's regime 'captures >= 1, bounds in [0.05,10]'): membership (rows with captures in "
               "[1,100] x [1,100c]), ranges, default gaussian and Poisson fits asserted with the same scale-aware tolerances "
@@ -264,11 +267,22 @@ def run(R):
         # fits
         # the Poisson model (model='poisson', default solver) is unit equivariant too: its objective sum b log(p) - p, p = A x + baseline,
         # is multiplied by c (plus a constant) when b, A and baseline are; A >= 0 and all targets are >= 1 here
+        # weighted fits (own stream; default solver): the option W= of the fit - the string 'inverse' (relative errors: every channel
+        # weighted by 1 / target capture, so the weights themselves change by 1/c with the capture unit and the minimiser does not), or
+        # explicit dimensionless weights, one per channel or one per target and channel (the same numbers for both twins). The
+        # minimiser is the same in every unit: predictions and errors scale by c, unique intensities by 1/s, as for the unweighted fit.
+        r5 = R.rng(5, si)
+        wkind = str(r5.choice(["inverse", "inverse", "per-channel", "per-target-and-channel"]))
+        Wv = None if wkind == "inverse" else dyadic(r5, 0.25, 4, 2, size=((nf,) if wkind == "per-channel" else B.shape))
+        R.count("weighted-fit:W=%s" % wkind)
+        c["W"] = "inverse" if Wv is None else Wv
+        kwW = (dict(W="inverse"), dict(W="inverse")) if Wv is None else (dict(W=as_given(r5, Wv, R, "W")), dict(W=as_given(r5, Wv, R, "W")))
         fits1 = {}
-        for mode, kw in (("default", {}), ("high", HIGH), ("poisson", dict(model="poisson"))):
+        for mode, kw in (("default", {}), ("high", HIGH), ("poisson", dict(model="poisson")), ("weighted", None)):
+            kw, kw_twin = (kw, kw) if kw is not None else kwW
             (sa, oa) = call(lsq_linear, gA, B, lb=glb, ub=gub, baseline=gbase, return_pred=True, **kw)
             fits1[mode] = (sa, oa)
-            (sb, ob) = call(lsq_linear, gA2, B2, lb=glb2, ub=gub2, baseline=gbase2, return_pred=True, **kw)
+            (sb, ob) = call(lsq_linear, gA2, B2, lb=glb2, ub=gub2, baseline=gbase2, return_pred=True, **kw_twin)
             R.count("fit-pair:%s:%s" % (mode, "baseline-nonzero" if np.any(base != 0) else "baseline-zero"))
             if mode == "high" and "runtime" in (sa, sb):
                 # the high-accuracy settings are the harness's choice: a solver that reports non-convergence with them does not
@@ -287,6 +301,8 @@ def run(R):
             errA = np.linalg.norm(oa[1] - B, axis=1); errB = np.linalg.norm(ob[1] - B2, axis=1)
             dE = float(np.max(np.abs(errB - cc * errA)))
             devs["pred:" + mode] = dB / max(cc, 1.0); devs["err:" + mode] = dE / max(cc, 1.0)
+            if __import__("os").environ.get("VERIF_DEBUG"):
+                print("DEBUG", k, mode, "c", cc, "s", s, "asserted", asserted, "wide", wide, "dB/(1+c)", dB / (1 + cc), "dE/(1+c)", dE / (1 + cc), file=__import__("sys").stderr)
             if wide and mode == "high":
                 # the harness's high-accuracy settings are ABSOLUTE gaps of 1e-10, which no double-precision solver reaches on squared
                 # captures of 1e6..1e8: CLARABEL then hands back its best iterate as 'optimal_inaccurate' (which dreye accepts), e.g.
@@ -309,7 +325,7 @@ def run(R):
         # scale-aware tolerances as for the other pairs (2e-2 (1 + c) capture units, i.e. 2e-2 units of the original); a fit that
         # REPORTS non-convergence in these units (RuntimeError) is loud and counted, a returned result must be equivariant.
         if asserted and st1 == "ok":
-            for mode, kw in (("default", {}), ("poisson", dict(model="poisson"))):
+            for mode, kw in (("default", {}), ("poisson", dict(model="poisson")), ("weighted", kwW[0])):
                 sa, oa = fits1[mode]
                 if sa != "ok":
                     continue
